@@ -43,11 +43,16 @@ Definition ranges_benign (ranges : list (string * N * string)) (reach : list str
 
 (* ---------- environment reads and time formatting ---------- *)
 Inductive env_status :=
-| EUtcByLibrary.     (* the formatted time.Time comes from crypto/x509, which returns UTC *)
+| EUtcByLibrary      (* the formatted time.Time comes from crypto/x509, which returns UTC *)
+| EEncodedClock.     (* reads the wall clock of the value time.Parse just returned (its year; its text in the
+                        parse layout, compared with the input and not output): the offset is the parsed one
+                        whichever Location carries it, so the result is a function of the input text *)
 
 Definition env_class : list (string * string * N * env_status) := [
   ("internal/file:getCertificateInfo", "format-zone-unknown", 1, EUtcByLibrary);
-  ("internal/file:getCertificateInfo", "format-zone-unknown", 2, EUtcByLibrary)
+  ("internal/file:getCertificateInfo", "format-zone-unknown", 2, EUtcByLibrary);
+  ("internal/asn1struct:utcTime", "format-zone-unknown", 1, EEncodedClock);
+  ("internal/asn1struct:utcTime", "format-zone-unknown", 2, EEncodedClock)
 ]%string.
 
 Definition env_site_ok (e : string * string * N) : bool :=
